@@ -6,6 +6,7 @@
    TRUE ones is correspondence-only (harness: gettimeofday before/after, gettid of the emitting
    thread, also in a forked child); so is the equality of the abstract %.12g oracle with glibc. *)
 From Coq Require Import Reals.
+From Flocq Require Core BinarySingleNaN.   (* qualified names only *)
 From Coq Require Import List ZArith Lia Bool Arith NArith.
 From Coq.Strings Require Import Byte.
 From Muduo Require Import Base_Bytes Gen_Consts Gen_C17 C17_Model C17_Proofs C17_Units C17_Flocq.
@@ -223,6 +224,42 @@ Theorem C17_binary64_semantics :
 Proof. exact binary64_semantics. Qed.
 Print Assumptions C17_binary64_semantics.
 
+(* Bit level: the same values are those of Flocq's IEEE-754 binary64 OPERATIONS on
+   [binary_float 53 1024]: [b64_of_Z n] = binary_normalize mode_NE n 0 (integer -> double, what
+   static_cast<double>(int64_t) is), [b64_div] = Bdiv mode_NE (operator/), Bltb (operator<).
+   All results are finite (no overflow, no NaN).  d must be a binary64 number itself
+   (to_double d = d: checked for every ladder divisor in C17_binary64_semantics). *)
+Theorem C17_ieee754_bit_level :
+  (forall n, 0 <= n < 2 ^ 64 ->
+     BinarySingleNaN.B2R (b64_of_Z n) = IZR (to_double n) /\ BinarySingleNaN.is_finite (b64_of_Z n) = true) /\
+  (forall n d m e, 0 < n < 2 ^ 63 -> 0 < d < 2 ^ 64 -> to_double d = d ->
+     div_double (to_double n) d = (m, e) ->
+     BinarySingleNaN.B2R (b64_div (b64_of_Z n) (b64_of_Z d)) = b64_value m e /\
+     BinarySingleNaN.is_finite (b64_div (b64_of_Z n) (b64_of_Z d)) = true) /\
+  (forall n (y : binary64) num den, 0 <= n < 2 ^ 64 -> 0 < den ->
+     BinarySingleNaN.is_finite y = true -> BinarySingleNaN.B2R y = (IZR num / IZR den)%R ->
+     BinarySingleNaN.Bltb (b64_of_Z n) y = (to_double n * den <? num)).
+Proof. exact ieee754_bit_level. Qed.
+Print Assumptions C17_ieee754_bit_level.
+
+(* printf "%.<p>f": the SPECIFICATION is [dec_fix p x] = x rounded to the nearest multiple of
+   10^-p, ties to the even multiple (Flocq: round radix10 (FIX_exp (-p)) ZnearestE) -- what a
+   correctly rounding printf prints in round-to-nearest mode.  (1) the model's fixed_scaled IS that
+   rounding of the exact binary value m * 2^e, as the integer ZnearestE (x * 10^p); (2) end to end:
+   on a rung with a unit, the characters in front of the unit are the decimal numeral with exactly
+   p decimals of dec_fix p ((double)n / d), both operations being Flocq's IEEE-754 ones.
+   That glibc's printf implements this specification is tested (correspondence run), not proved. *)
+Theorem C17_printf_fixed_spec :
+  (forall p m e, 0 <= p ->
+     fixed_scaled p (m, e) = nearest_even (b64_value m e * IZR (10 ^ p)) /\
+     dec_fix p (b64_value m e) = Defs.F2R (Defs.Float radix10 (fixed_scaled p (m, e)) (- p))) /\
+  (forall n p d u, 0 < n < 2 ^ 63 -> 0 <= p -> 0 < d < 2 ^ 64 -> to_double d = d ->
+     let x := BinarySingleNaN.B2R (b64_div (b64_of_Z n) (b64_of_Z d)) in
+     exists k body, render (RFix p d u) n = body ++ u /\ fixed_numeral body p k /\
+       k = nearest_even (x * IZR (10 ^ p)) /\ dec_fix p x = Defs.F2R (Defs.Float radix10 k (- p))).
+Proof. exact printf_fixed_spec. Qed.
+Print Assumptions C17_printf_fixed_spec.
+
 (* the number printed is monotone in n for a fixed format (rne is monotone on rationals, hence so
    are the conversion, the quotient and the decimal rounding): the reason why a rung is bounded by
    its last n *)
@@ -256,6 +293,17 @@ Theorem C17_ladders_covered :
   (forallb (rung_ok 6) iec_ladder = true /\ existsb is_else iec_ladder = true).
 Proof. exact (conj si_ladder_ok iec_ladder_ok). Qed.
 Print Assumptions C17_ladders_covered.
+
+(* Three significant digits, no leading zero: on every rung with a unit the number printed, scaled by
+   10^p, is at least 100 (value >= 1.00 / 10.0 / 100 units) and at most 1023 (1000..1023 only at the
+   top of a %.0f rung); without a unit n <= 1023.  Lower ends: every n of a rung has failed the
+   previous tests, hence is >= the first integer failing the previous test (computed; for a test on
+   the double by search + one evaluation), and the printed number is monotone. *)
+Theorem C17_significant_digits : forall n, 0 <= n < 2 ^ 63 ->
+  (sig_low (select n si_ladder) n /\ sig_high (select n si_ladder) n) /\
+  (sig_low (select n iec_ladder) n /\ sig_high (select n iec_ladder) n).
+Proof. exact (fun n Hn => conj (si_significant n Hn) (iec_significant n Hn)). Qed.
+Print Assumptions C17_significant_digits.
 
 (* "within rounding error of n": on the plain rung the text is the decimal numeral of n; on every
    other rung it is <canonical integer part>[.<p digits>]<unit> denoting k / 10^p units of d with
